@@ -627,7 +627,27 @@ Definition verify_root_keys (E : env) (m : msg) : bool * option err :=
       end
   end.
 
-(* verifyDNSSEC: (ok, err) *)
+(* DSMatchedKeys (d62d15b): the keys a supported DS of the set vouches for — one VerifyDS per key *)
+Definition ds_binds_b (d : rr) (k : key) : bool :=
+  match r_rd d with
+  | RdDS tag alg dt dg _ =>
+      supported_digest dt && supported_alg alg && (k_tag k =? tag) && (k_alg k =? alg) && (k_class k =? r_class d) &&
+      name_eqb (k_owner k) (r_owner d) && (k_proto k =? ds_candidate_protocol) && zone_bit (k_flags k) &&
+      digest_eqb dg (DigOf dt (k_owner k) (k_flags k) (k_proto k) (k_alg k) (k_mat k))
+  | _ => false
+  end.
+Definition ds_matched (ds : list rr) (keys : list key) : list key :=
+  filter (fun k => existsb (fun d => ds_binds_b d k) ds) keys.
+(* the signer's DNSKEY RRset and the signatures over it *)
+Definition dnskey_part (signer : name) (km : msg) : list rr :=
+  filter (fun r => name_eqb (r_owner r) signer &&
+                   ((r_type r =? T_DNSKEY) || match sig_of r with Some s => (r_type r =? T_RRSIG) && (s_cov s =? T_DNSKEY) | None => false end))
+         (m_ans km).
+
+(* verifyDNSSEC: (ok, err).  Since d62d15b: when the response under validation IS the signer's DNSKEY
+   answer, its DNSKEY RRset must verify under a key that a DS of the parent's set matches, before any other
+   key of the set is believed (keys obtained through the sub-query path went through this when that DNSKEY
+   answer was itself resolved). *)
 Definition verify_dnssec (E : env) (signer : name) (resp : msg) (parentDS : list rr) : bool * option err :=
   let own := (m_qtype resp =? T_DNSKEY) && name_eqb (m_qname resp) signer in
   if own && match signer with [] => true | _ => false end then verify_root_keys E resp else
@@ -645,11 +665,21 @@ Definition verify_dnssec (E : env) (signer : name) (resp : msg) (parentDS : list
               | (true, Some _) => (false, None)        (* unsupported-only DS: insecure *)
               | (false, Some e) => (false, Some e)
               | (_, None) =>
-                  if m_qtype resp =? T_RRSIG then (false, None) else
-                  match verify_rrsig (e_nrank E) (e_now E) signer keys (m_ans resp) (m_ns resp) with
+                  match (if own then
+                           match ds_matched parentDS keys with
+                           | [] => (false, Some EMissingKSK)
+                           | anchored => verify_rrsig (e_nrank E) (e_now E) signer anchored (dnskey_part signer km) []
+                           end
+                         else (true, None)) with
                   | (_, Some e) => (false, Some e)
                   | (false, None) => (false, None)
-                  | (true, None) => (true, None)
+                  | (true, None) =>
+                      if m_qtype resp =? T_RRSIG then (false, None) else
+                      match verify_rrsig (e_nrank E) (e_now E) signer keys (m_ans resp) (m_ns resp) with
+                      | (_, Some e) => (false, Some e)
+                      | (false, None) => (false, None)
+                      | (true, None) => (true, None)
+                      end
                   end
               end
           end
